@@ -4,9 +4,11 @@
 
 namespace {
 
-enum COpType { C_GET, C_GETV, C_PEEK, C_READ, C_READX, C_READBUF, C_READXBUF, C_SKIP, C_SKIPIF, C_LINE, C_CSTR, C_GO, C_TRUNC };
-enum KSym { K0, K1, K2, KN, KN1, KMAX, KWRAP, NKSYM };  // 0, 1, 2, n, n+1, 2^64-1, 2^64-where
-const char* ksym_name[] = {"0", "1", "2", "n", "n+1", "2^64-1", "2^64-where"};
+enum COpType { C_GET, C_GETV, C_PEEK, C_READ, C_READX, C_READBUF, C_READXBUF, C_SKIP, C_SKIPIF, C_LINE, C_CSTR, C_GO, C_TRUNC, C_GETT, C_GETTW, C_ALL };
+// size symbols, evaluated against the *current* state: rem = size() - where()
+enum KSym { K0, K1, K2, KN, KN1, KMAX, KWRAP, KREMm1, KREM, KREMp1, K2_31, K2_32, K2_63m1, K2_63, KWRAPm1, KWRAPp1, KMAXm1, NKSYM };
+const char* ksym_name[] = {"0", "1", "2", "n", "n+1", "2^64-1", "2^64-where", "remaining-1", "remaining", "remaining+1", "2^31", "2^32", "2^63-1", "2^63", "2^64-where-1", "2^64-where+1", "2^64-2"};
+const int NKSYM_CORE = 7;  // the first seven are the round-1 alphabet (kept for the depth-3 histories)
 
 struct COp {
   COpType t;
@@ -15,12 +17,14 @@ struct COp {
   bool adv = true;
   bool match = false;
   uint64_t j = 0;
+  bool core = false;  // member of the small alphabet used for the deepest histories
+  bool hist = true;   // member of the un-merged history alphabet (false: explicit-state search only)
   std::string name;
   std::string key;  // finding-key stem
   bool is_read() const { return t != C_GO && t != C_TRUNC; }
 };
 
-uint64_t kval(int ksym, size_t n, uint64_t where) {
+uint64_t kval(int ksym, size_t n, uint64_t where, uint64_t len) {
   switch (ksym) {
     case K0: return 0;
     case K1: return 1;
@@ -28,25 +32,42 @@ uint64_t kval(int ksym, size_t n, uint64_t where) {
     case KN: return n;
     case KN1: return n + 1;
     case KMAX: return ~0ull;
-    default: return 0 - where;
+    case KMAXm1: return ~0ull - 1;
+    case KWRAP: return 0 - where;
+    case KWRAPm1: return 0 - where - 1;
+    case KWRAPp1: return 0 - where + 1;
+    case KREMm1: return len - where - 1;
+    case KREM: return len - where;
+    case KREMp1: return len - where + 1;
+    case K2_31: return 1ull << 31;
+    case K2_32: return 1ull << 32;
+    case K2_63m1: return (1ull << 63) - 1;
+    default: return 1ull << 63;
   }
 }
 
 std::vector<COp> cursor_ops(size_t n) {
   std::vector<COp> ops;
   auto add = [&](COp o) { ops.push_back(o); };
-  for (const char* kn : {"u8", "u16l", "u32b", "u64l", "u24b", "u48l"})
+  auto is_in = [](const char* s, std::initializer_list<const char*> l) { for (auto x : l) if (!strcmp(s, x)) return true; return false; };
+  // every typed getter; the six of round 1 are core, a few more (all 24/48-bit sites, one signed / float /
+  // reversed wrapper) are in the history alphabet, the rest only in the explicit-state search
+  for (auto& k : c01::kinds())
     for (bool adv : {true, false}) {
       COp o;
       o.t = C_GET;
-      o.k = c01::kind(kn);
+      o.k = &k;
       o.adv = adv;
-      o.name = std::string("get_") + kn + (adv ? "()" : "(false)");
-      o.key = (o.k->w == 3 || o.k->w == 6) ? std::string("get_") + kn : "get<T>";
+      o.core = is_in(k.name, {"u8", "u16l", "u32b", "u64l", "u24b", "u48l"});
+      o.hist = o.core || is_in(k.name, {"u24l", "u48b", "s24l", "s48b", "s16b", "u32r", "f64b"});
+      o.name = std::string("get_") + k.name + (adv ? "()" : "(false)");
+      std::string nm = k.name;
+      nm[0] = 'u';
+      o.key = (k.w == 3 || k.w == 6) ? "get_" + nm : "get<T>";
       add(o);
     }
   struct { COpType t; const char* nm; bool has_adv; } sized[] = {{C_GETV, "getv", true}, {C_PEEK, "peek", false}, {C_READ, "read", true}, {C_READX, "readx", true},
-      {C_READBUF, "read_buf", true}, {C_READXBUF, "readx_buf", true}, {C_SKIP, "skip", false}};
+      {C_READBUF, "read_buf", true}, {C_READXBUF, "readx_buf", true}, {C_SKIP, "skip", false}, {C_GETT, "get<uint8_t>(adv,size)", true}, {C_GETTW, "get<le_uint32_t>(adv,size)", true}};
   for (auto& s : sized)
     for (int ks = 0; ks < NKSYM; ks++)
       for (bool adv : {true, false}) {
@@ -55,16 +76,24 @@ std::vector<COp> cursor_ops(size_t n) {
         o.t = s.t;
         o.ksym = ks;
         o.adv = adv;
-        o.name = std::string(s.nm) + "(" + ksym_name[ks] + (adv ? ")" : ", false)");
-        o.key = s.nm;
+        o.core = ks < NKSYM_CORE && s.t != C_GETT && s.t != C_GETTW;
+        if (s.t == C_GETT || s.t == C_GETTW) {
+          o.name = std::string(s.t == C_GETT ? "get<uint8_t>(" : "get<le_uint32_t>(") + (adv ? "true, " : "false, ") + ksym_name[ks] + ")";
+          o.key = "get<T>(adv,size)";
+          o.hist = s.t == C_GETT || ks >= NKSYM_CORE;
+        } else {
+          o.name = std::string(s.nm) + "(" + ksym_name[ks] + (adv ? ")" : ", false)");
+          o.key = s.nm;
+        }
         add(o);
       }
-  for (int ks : {K0, K1, K2, KN, KN1})
+  for (int ks : {K0, K1, K2, KN, KN1, KREMm1, KREM, KREMp1})
     for (bool match : {true, false}) {
       COp o;
       o.t = C_SKIPIF;
       o.ksym = ks;
       o.match = match;
+      o.core = ks < NKSYM_CORE;
       o.name = std::string("skip_if(") + (match ? "matching, " : "different, ") + ksym_name[ks] + ")";
       o.key = "skip_if";
       add(o);
@@ -73,6 +102,7 @@ std::vector<COp> cursor_ops(size_t n) {
     COp o;
     o.t = C_LINE;
     o.adv = adv;
+    o.core = true;
     o.name = adv ? "get_line()" : "get_line(false)";
     o.key = "get_line";
     add(o);
@@ -81,21 +111,35 @@ std::vector<COp> cursor_ops(size_t n) {
     o.key = "get_cstr";
     add(o);
   }
+  {
+    COp o;
+    o.t = C_ALL;
+    o.name = "all()";
+    o.key = "all";
+    add(o);
+  }
   std::vector<uint64_t> gos;
   for (uint64_t j = 0; j <= n + 1; j++) gos.push_back(j);
   gos.push_back(~0ull);
+  gos.push_back(1ull << 63);
   for (uint64_t j : gos) {
     COp o;
     o.t = C_GO;
     o.j = j;
+    o.core = j != (1ull << 63);
     o.name = "go(" + u64s(j) + ")" + (j > n ? " [explicit go past the end]" : "");
     o.key = "go";
     add(o);
   }
-  for (uint64_t j = 0; j <= n + 1; j++) {
+  std::vector<uint64_t> truncs;
+  for (uint64_t j = 0; j <= n + 1; j++) truncs.push_back(j);
+  truncs.push_back(1ull << 63);
+  truncs.push_back(~0ull);
+  for (uint64_t j : truncs) {
     COp o;
     o.t = C_TRUNC;
     o.j = j;
+    o.core = j <= n + 1;
     o.name = "truncate(" + u64s(j) + ")";
     o.key = "truncate";
     add(o);
@@ -103,19 +147,29 @@ std::vector<COp> cursor_ops(size_t n) {
   return ops;
 }
 
+std::vector<uint32_t> op_subset(const std::vector<COp>& ops, int which) {  // 0: all, 1: history alphabet, 2: core
+  std::vector<uint32_t> ix;
+  for (uint32_t i = 0; i < ops.size(); i++)
+    if (which == 0 || (which == 1 && ops[i].hist) || (which == 2 && ops[i].core)) ix.push_back(i);
+  return ix;
+}
+
 struct CState {
   uint64_t where, len;
   bool operator<(const CState& o) const { return where != o.where ? where < o.where : len < o.len; }
 };
 
-// Applies op to rd (whose data is the first n bytes of CONTENT at `base`) and judges it against the
-// model.  Returns "" when fine, else "key-suffix\x01description".  `judge=false` only executes.
-std::string apply_cursor_op(StringReader& rd, const uint8_t* base, size_t n, const COp& o, bool judge, std::string* cls) {
+// Applies op to rd (a reader made by view v: its data are the first bytes of v.content) and judges it
+// against the model.  Returns "" when fine, else "key-suffix\x01description".  `judge=false` only executes.
+std::string apply_cursor_op(StringReader& rd, const View& v, const COp& o, bool judge, std::string* cls) {
+  const uint8_t* base = rd.data;
+  const uint8_t* content = v.content;
+  const size_t n = v.n;
   const uint64_t w = rd.where(), len = rd.size();
-  const uint64_t k = kval(o.ksym, n, w);
+  const uint64_t k = kval(o.ksym, n, w, len);
   std::string what, oc, bad;
   auto fail = [&](const std::string& suffix, const std::string& d) { if (bad.empty()) bad = o.key + ":" + suffix + "\x01" + d; };
-  auto slice = [&](uint64_t a, uint64_t b) { return std::string((const char*)CONTENT + a, b - a); };
+  auto slice = [&](uint64_t a, uint64_t b) { return std::string((const char*)content + a, b - a); };
   const uint64_t lo = clamp_lo(w, len), hi = clamp_hi(w, k, len);
   switch (o.t) {
     case C_GET: {
@@ -125,19 +179,28 @@ std::string apply_cursor_op(StringReader& rd, const uint8_t* base, size_t n, con
       if (!judge) break;
       if (!in) { if (oc != "out_of_range") fail("out-of-range-not-rejected", oc == "ok" ? vf::fmt("fewer than %d bytes at the cursor, yet the call returned 0x%llX", o.k->w, (unsigned long long)got) : "expected std::out_of_range, got " + oc + " (" + what + ")"); else *cls = o.key + "/rejects-out-of-range"; }
       else if (oc != "ok") fail("rejected-in-range", "got " + oc + " (" + what + ")");
-      else if (got != o.k->expect(c01::dec(CONTENT + w, o.k->w, o.k->e))) fail("wrong-result", vf::fmt("returned 0x%llX", (unsigned long long)got));
+      else if (got != o.k->expect(c01::dec(content + w, o.k->w, o.k->e))) fail("wrong-result", vf::fmt("returned 0x%llX", (unsigned long long)got));
+      else if (rd.where() != w + (o.adv ? o.k->w : 0)) fail("wrong-result", vf::fmt("cursor moved from %llu to %s after a %d-byte get (advance=%d)", (unsigned long long)w, u64s(rd.where()).c_str(), o.k->w, (int)o.adv));
       else *cls = o.key + "/in-range-exact";
       break;
     }
     case C_GETV:
-    case C_PEEK: {
+    case C_PEEK:
+    case C_GETT:
+    case C_GETTW: {
       bool in = in_range(w, k, len);
       const void* p = nullptr;
-      oc = vf::outcome([&] { p = o.t == C_GETV ? rd.getv(k, o.adv) : (const void*)rd.peek(k); }, &what);
+      oc = vf::outcome([&] {
+        if (o.t == C_GETV) p = rd.getv(k, o.adv);
+        else if (o.t == C_PEEK) p = rd.peek(k);
+        else if (o.t == C_GETT) p = &rd.get<uint8_t>(o.adv, k);
+        else p = &rd.get<le_uint32_t>(o.adv, k);
+      }, &what);
       if (!judge) break;
       if (!in) { if (oc != "out_of_range") fail("out-of-range-not-rejected", oc == "ok" ? "cursor+size exceeds the data, yet the call returned a pointer" : "expected std::out_of_range, got " + oc + " (" + what + ")"); else *cls = o.key + "/rejects-out-of-range"; }
       else if (oc != "ok") fail("rejected-in-range", "got " + oc + " (" + what + ")");
       else if (p != base + w) fail("wrong-result", vf::fmt("returned data%+lld, expected data+%llu", (long long)((const uint8_t*)p - base), (unsigned long long)w));
+      else if (rd.where() != w + ((o.adv && o.t != C_PEEK) ? k : 0)) fail("wrong-result", vf::fmt("cursor moved from %llu to %s for size %llu (advance=%d)", (unsigned long long)w, u64s(rd.where()).c_str(), (unsigned long long)k, (int)(o.adv && o.t != C_PEEK)));
       else *cls = o.key + "/in-range-exact";
       break;
     }
@@ -177,7 +240,7 @@ std::string apply_cursor_op(StringReader& rd, const uint8_t* base, size_t n, con
         break;
       }
       if (oc != "ok") { fail(o.t == C_READBUF ? "throws" : "rejected-in-range", "got " + oc + " (" + what + ")"); break; }
-      bool same = cnt == wn && cnt <= bufsz && !memcmp(buf.p, CONTENT + wl, wn);
+      bool same = cnt == wn && cnt <= bufsz && !memcmp(buf.p, content + wl, wn);
       for (size_t i = wn; same && i < bufsz; i++) same = buf.p[i] == 0xEE;
       if (!same) fail("wrong-result", vf::fmt("copied %zu bytes (buffer %s), model %llu bytes from %llu", cnt, vf::show(buf.p, bufsz).c_str(), (unsigned long long)wn, (unsigned long long)wl));
       else *cls = o.key + (in ? "/in-range-exact" : wn ? "/clamped-prefix" : "/clamped-empty");
@@ -190,9 +253,10 @@ std::string apply_cursor_op(StringReader& rd, const uint8_t* base, size_t n, con
       break;
     case C_SKIPIF: {
       bool in = in_range(w, k, len);
+      if (k > (uint64_t)n + 1) { if (judge) *cls = "skip_if/not-exercised (pattern larger than any buffer)"; break; }  // only when remaining() has underflowed
       Exact pat(k, 'Z');
-      if (o.match && in) memcpy(pat.p, CONTENT + w, k);
-      bool equal = in && !memcmp(pat.p, CONTENT + w, k);
+      if (o.match && in) memcpy(pat.p, content + w, k);
+      bool equal = in && !memcmp(pat.p, content + w, k);
       bool ret = false;
       oc = vf::outcome([&] { ret = rd.skip_if(pat.p, k); }, &what);
       if (!judge) break;
@@ -213,7 +277,7 @@ std::string apply_cursor_op(StringReader& rd, const uint8_t* base, size_t n, con
       uint64_t j = w;
       bool have = w < len;
       if (have) {
-        while (j < len && CONTENT[j] != term) j++;
+        while (j < len && content[j] != term) j++;
         if (o.t == C_CSTR && j >= len) have = false;
       }
       std::string got;
@@ -227,6 +291,16 @@ std::string apply_cursor_op(StringReader& rd, const uint8_t* base, size_t n, con
       else *cls = o.key + "/in-range-exact";
       break;
     }
+    case C_ALL: {
+      std::string got;
+      oc = vf::outcome([&] { got = rd.all(); }, &what);
+      if (!judge) break;
+      if (oc != "ok") fail("throws", "got " + oc + " (" + what + ")");
+      else if (got != slice(0, len)) fail("wrong-result", vf::fmt("returned %zu bytes %s, the data are %llu bytes", got.size(), vf::show(got.substr(0, 32)).c_str(), (unsigned long long)len));
+      else if (rd.where() != w) fail("wrong-result", "all() moved the cursor");
+      else *cls = "all/exact";
+      break;
+    }
     case C_GO:
       oc = vf::outcome([&] { rd.go(o.j); }, &what);
       if (judge) *cls = o.j > len ? "go/past-the-end" : "go/inside";
@@ -238,25 +312,29 @@ std::string apply_cursor_op(StringReader& rd, const uint8_t* base, size_t n, con
   }
   if (!judge) return "";
   // universal: the data never grows; reads never change the length; a read that starts with the
-  // cursor inside the data never leaves it beyond the end
+  // cursor inside the data never leaves it beyond the end; while the cursor is inside the data the
+  // observers agree with it (remaining() cannot have underflowed)
   if (bad.empty()) {
     if (rd.size() > len) fail("length-grew", vf::fmt("size() %llu -> %zu", (unsigned long long)len, rd.size()));
     else if (o.is_read() && rd.size() != len) fail("length-changed", vf::fmt("size() %llu -> %zu", (unsigned long long)len, rd.size()));
-    else if (o.is_read() && w <= len && rd.where() > rd.size()) fail("cursor-past-end", vf::fmt("cursor %llu -> %zu with size() %zu (%s): remaining() underflows without an explicit go() past the end", (unsigned long long)w, rd.where(), rd.size(), oc.c_str()));
+    else if (rd.data != base) fail("wrong-result", "the operation changed the data pointer");
+    else if (o.is_read() && w <= len && rd.where() > rd.size()) fail("cursor-past-end", vf::fmt("cursor %llu -> %s with size() %zu (%s): remaining() underflows without an explicit go() past the end", (unsigned long long)w, u64s(rd.where()).c_str(), rd.size(), oc.c_str()));
+    else if (rd.where() <= rd.size() && (rd.remaining() != rd.size() - rd.where() || rd.eof() != (rd.where() == rd.size())))
+      bad = std::string("observers:wrong-result") + "\x01" + vf::fmt("where()=%zu size()=%zu but remaining()=%s eof()=%d", rd.where(), rd.size(), u64s(rd.remaining()).c_str(), (int)rd.eof());
   }
   return bad;
 }
 
 // 1 / 0: throwing form whose model accepts / rejects the call in this state; -1: clamping or non-read
-int cursor_op_model_accepts(const COp& o, uint64_t w, uint64_t len, size_t n) {
-  const uint64_t k = kval(o.ksym, n, w);
+int cursor_op_model_accepts(const COp& o, uint64_t w, uint64_t len, const View& v) {
+  const uint64_t k = kval(o.ksym, v.n, w, len);
   switch (o.t) {
     case C_GET: return in_range(w, o.k->w, len);
-    case C_GETV: case C_PEEK: case C_READX: case C_READXBUF: case C_SKIPIF: return in_range(w, k, len);
+    case C_GETV: case C_PEEK: case C_READX: case C_READXBUF: case C_SKIPIF: case C_GETT: case C_GETTW: return in_range(w, k, len);
     case C_LINE: return w < len;
     case C_CSTR: {
       for (uint64_t j = w; j < len; j++)
-        if (CONTENT[j] == 0) return 1;
+        if (v.content[j] == 0) return 1;
       return 0;
     }
     default: return -1;
@@ -266,25 +344,33 @@ int cursor_op_model_accepts(const COp& o, uint64_t w, uint64_t len, size_t n) {
 std::string hist_name(const std::vector<COp>& ops, const std::vector<uint32_t>& h) {
   std::string s;
   for (size_t i = 0; i < h.size(); i++) s += (i ? "; " : "") + ops[h[i]].name;
-  return s.empty() ? "(fresh reader)" : s;
+  return s.empty() ? "(none)" : s;
 }
 
-// child side: fresh reader, replay `hist` unjudged, then judge `op`
-void run_cursor_case(const uint8_t* base, size_t n, const char* plname, const std::vector<COp>& ops, const std::vector<uint32_t>& hist, uint32_t op, const CState* expect_pre, CaseResult& res) {
+// child side: make the reader, replay `hist` unjudged, then judge `op`
+void run_cursor_case(const View& v, const std::vector<COp>& ops, const std::vector<uint32_t>& hist, uint32_t op, const CState* expect_pre, CaseResult& res, int ctx = 0);
+
+}  // namespace
+
+#include "C02_context.hh"
+
+namespace {
+
+void run_cursor_case(const View& v, const std::vector<COp>& ops, const std::vector<uint32_t>& hist, uint32_t op, const CState* expect_pre, CaseResult& res, int ctx) {
   const COp& o = ops[op];
-  res.arm(o.key + ":memory-error", vf::fmt("%zu-byte reader (%s), history [%s], then %s", n, plname, hist_name(ops, hist).c_str(), o.name.c_str()));
-  StringReader rd(base, n);
+  res.arm(o.key + ":memory-error", vf::fmt("%s, history [%s], then %s%s", v.how.c_str(), hist_name(ops, hist).c_str(), o.name.c_str(), c02::ctx_name(ctx)));
+  StringReader rd = v.make();
   std::string cls;
   // key to use if a call is fatal: a throwing form that the model says must reject the call and
   // that dies instead has not rejected it.  A death while replaying the prefix belongs to the
   // prefix operation that caused it, not to the operation under judgement.
   auto arm_for = [&](const COp& x) {
-    int m = cursor_op_model_accepts(x, rd.where(), rd.size(), n);
+    int m = cursor_op_model_accepts(x, rd.where(), rd.size(), v);
     res.set(res.key, sizeof(res.key), x.key + (m < 0 ? ":memory-error" : m ? ":memory-error-in-range" : ":out-of-range-not-rejected"));
   };
   for (uint32_t h : hist) {
     arm_for(ops[h]);
-    apply_cursor_op(rd, base, n, ops[h], false, &cls);
+    apply_cursor_op(rd, v, ops[h], false, &cls);
   }
   arm_for(o);
   if (expect_pre && (rd.where() != expect_pre->where || rd.size() != expect_pre->len)) {
@@ -294,7 +380,8 @@ void run_cursor_case(const uint8_t* base, size_t n, const char* plname, const st
   uint64_t w0 = rd.where(), l0 = rd.size();
   std::string desc = std::string(res.msg) + vf::fmt(" at (where=%s, size=%llu)", u64s(w0).c_str(), (unsigned long long)l0);
   res.set(res.msg, sizeof(res.msg), desc);
-  std::string bad = apply_cursor_op(rd, base, n, o, true, &cls);
+  std::string bad;
+  c02::in_context(ctx, [&] { bad = apply_cursor_op(rd, v, o, true, &cls); });
   res.a = rd.where();
   res.b = rd.size();
   if (!bad.empty()) {
@@ -312,6 +399,7 @@ VF_SECTION(cursor_bfs, 5, 5, 90) {
     size_t my = ni++;
     if (r.only < 0 && my % r.nshards != r.shard) continue;
     Placement pl(0, n);
+    View v = fresh_view(pl);
     auto ops = cursor_ops(n);
     std::map<CState, std::vector<uint32_t>> seen;  // state -> shortest history
     std::deque<CState> queue;
@@ -332,7 +420,7 @@ VF_SECTION(cursor_bfs, 5, 5, 90) {
       maxdepth = std::max(maxdepth, hist.size());
       r.states++;
       r.note(vf::fmt("n=%zu state(where=%s,len=%llu)", n, u64s(s.where).c_str(), (unsigned long long)s.len));
-      auto* res = c02::run_batch(r, ops.size(), [&](size_t i, CaseResult& c) { run_cursor_case(pl.base, n, pl.name, ops, hist, (uint32_t)i, &s, c); });
+      auto* res = c02::run_batch(r, ops.size(), [&](size_t i, CaseResult& c) { run_cursor_case(v, ops, hist, (uint32_t)i, &s, c); });
       r.evals += ops.size();
       r.nontrivial += ops.size();
       r.transitions += ops.size();
@@ -350,46 +438,94 @@ VF_SECTION(cursor_bfs, 5, 5, 90) {
     }
     r.counters[vf::fmt("states n=%zu", n)] += seen.size();
     r.counters[vf::fmt("max depth n=%zu", n)] += maxdepth;
+    r.counters[vf::fmt("operations per state n=%zu", n)] += ops.size();
     if (capped) {
       r.exhaustive = false;
       r.notes.push_back(vf::fmt("cursor_bfs n=%zu: state cap %zu exceeded (cursor runs away), fixpoint NOT reached", n, STATE_CAP));
     } else r.notes.push_back(vf::fmt("cursor_bfs n=%zu: fixpoint reached, %zu states, %zu operations per state, longest shortest-history %zu", n, seen.size(), ops.size(), maxdepth));
   }
   r.counters["forks"] += c02::stats().forks;
-  r.bound = "n in {0,1,2,5,8}: every reachable (where, size) state of a reader (fixpoint), every operation of the alphabet {get_u8/u16l/u32b/u64l/u24b/u48l, getv, peek, read, readx, read(buf), readx(buf), skip with k in {0,1,2,n,n+1,2^64-1,2^64-where}; skip_if; get_line; get_cstr; go(0..n+1, 2^64-1); truncate(0..n+1)} from every state";
+  r.bound = "n in {0,1,2,5,8}: every reachable (where, size) state of a reader (fixpoint), from every state every operation of the alphabet {all 42 typed get_* (advance t/f); getv, peek, read, readx, read(buf), readx(buf), skip, get<uint8_t>(adv,size), get<le_uint32_t>(adv,size) with size in K; skip_if (matching/different) with size in {0,1,2,n,n+1,remaining-1,remaining,remaining+1}; get_line; get_cstr; all(); go(0..n+1, 2^63, 2^64-1); truncate(0..n+1, 2^63, 2^64-1)}, K = {0,1,2,n,n+1,remaining-1,remaining,remaining+1,2^31,2^32,2^63-1,2^63,2^64-where-1,2^64-where,2^64-where+1,2^64-2,2^64-1} relative to the current state";
 }
+
+namespace {
+// extra readers for the un-merged histories: not fresh, not at offset 0 of their buffer, owning their data
+struct HistExtra {
+  Placement pl;
+  std::shared_ptr<std::string> sp;
+  std::vector<View> views;
+  HistExtra() : pl(0, 8), sp(new std::string((const char*)CONTENT, 8)) {
+    const uint8_t* P = pl.base;
+    View a;
+    a.how = "StringReader(ptr, 8).sub(1, 6).sub(1, 4) [4 bytes at parent offset 2, guard-page]";
+    a.base = P + 2;
+    a.content = CONTENT + 2;
+    a.n = 4;
+    a.make = [P] { return StringReader(P, 8).sub(1, 6).sub(1, 4); };
+    views.push_back(a);
+    View b;
+    b.how = "StringReader(ptr, 8, 3) [guard-page]";
+    b.base = P;
+    b.n = 8;
+    b.w0 = 3;
+    b.make = [P] { return StringReader(P, 8, 3); };
+    views.push_back(b);
+    View c;
+    c.how = "StringReader(shared_ptr<string> of 8 bytes, 1)";
+    c.base = (const uint8_t*)sp->data();
+    c.n = 8;
+    c.w0 = 1;
+    auto spc = sp;
+    c.make = [spc] { return StringReader(spc, 1); };
+    views.push_back(c);
+  }
+};
+}  // namespace
 
 // Un-merged histories (no state merging): every operation sequence of length <= D, judged at its
 // last operation.  One case = one prefix with every last operation.
 VF_SECTION(cursor_hist, 16, 16, 90) {
-  const size_t depth = r.thorough() ? 3 : 2;
+  const size_t deep = r.thorough() ? 3 : 2;
+  std::vector<std::unique_ptr<Placement>> pls;
+  std::vector<View> views;
   for (size_t n : NS) {
-    Placement pl(1, n);
-    auto ops = cursor_ops(n);
-    r.note(vf::fmt("n=%zu histories", n));
-    for (size_t plen = 0; plen < depth; plen++) {
+    pls.emplace_back(new Placement(1, n));
+    views.push_back(fresh_view(*pls.back()));
+  }
+  const size_t nfresh = views.size();
+  HistExtra extra;
+  for (auto& v : extra.views) views.push_back(v);
+  for (size_t vi = 0; vi < views.size(); vi++) {
+    const View& v = views[vi];
+    auto ops = cursor_ops(v.n);
+    r.note(v.how + " histories");
+    // full history alphabet up to depth 2; the round-1 alphabet one level deeper (fresh readers only)
+    for (size_t plen = 0; plen < (vi < nfresh ? deep : 2); plen++) {
+      const std::vector<uint32_t> alpha = op_subset(ops, plen >= 2 ? 2 : 1);
       std::vector<uint32_t> pre(plen, 0);
       bool more = true;
       while (more) {
         if (r.take()) {
-          if (r.wants_desc()) r.desc(vf::fmt("%zu-byte reader, history [%s] followed by every operation", n, hist_name(ops, pre).c_str()));
-          auto* res = c02::run_batch(r, ops.size(), [&](size_t i, CaseResult& c) { run_cursor_case(pl.base, n, pl.name, ops, pre, (uint32_t)i, nullptr, c); });
-          r.evals += ops.size() - 1;
-          r.nontrivial += ops.size();
-          r.states += ops.size();
-          r.transitions += ops.size() * (plen + 1);
-          c02::fold(r, res, ops.size());
+          std::vector<uint32_t> hist(plen);
+          for (size_t q = 0; q < plen; q++) hist[q] = alpha[pre[q]];
+          if (r.wants_desc()) r.desc(vf::fmt("%s, history [%s] followed by every operation", v.how.c_str(), hist_name(ops, hist).c_str()));
+          auto* res = c02::run_batch(r, alpha.size(), [&](size_t i, CaseResult& c) { run_cursor_case(v, ops, hist, alpha[i], nullptr, c); });
+          r.evals += alpha.size() - 1;
+          r.nontrivial += alpha.size();
+          r.states += alpha.size();
+          r.transitions += alpha.size() * (plen + 1);
+          c02::fold(r, res, alpha.size());
         }
         size_t i = plen;
         for (;;) {
           if (i == 0) { more = false; break; }
           i--;
-          if (++pre[i] < ops.size()) break;
+          if (++pre[i] < alpha.size()) break;
           pre[i] = 0;
         }
       }
     }
   }
   r.counters["forks"] += c02::stats().forks;
-  r.bound = vf::fmt("n in {0,1,2,5,8}: every sequence of <= %zu cursor operations over the same alphabet, replayed un-merged on a fresh reader over an exact-size heap block", depth);
+  r.bound = vf::fmt("fresh readers over n in {0,1,2,5,8} bytes (exact-size heap block) and three non-fresh readers (sub-reader of a sub-reader at parent offset 2, reader constructed with cursor 3, shared_ptr-owned data with cursor 1): every sequence of <= 2 cursor operations over the history alphabet (the explicit-state alphabet with 13 of the 42 typed getters)%s, replayed un-merged", deep > 2 ? "; every sequence of 3 operations over the round-1 alphabet on the fresh readers" : "");
 }
